@@ -27,7 +27,21 @@ def make(rnd, k):
             driver += [['gennew', j, 'f', a, kw], ['next', j]]
         else:
             driver.append(['call', 'f', a, kw])
-    return {'funs': [{'name': 'f', 'kind': kind, 'sig': fsig, 'stack': stack, 'body': body}], 'driver': driver}
+    funs = [{'name': 'f', 'kind': kind, 'sig': fsig, 'stack': stack, 'body': body}]
+    if any(p[2] is not None for p in fsig) and rnd.random() < .2:
+        # a second function made from the same `def` (it shares the code object) with other default values, as a factory or a loop would
+        import copy
+        gsig = [[p[0], p[1], ({'i': p[2]['i'] + 7} if (p[2] is not None and 'i' in p[2]) else p[2])] for p in fsig]
+        gstack = copy.deepcopy(stack)
+        for it in gstack:
+            it[1]['id'] = ids()
+            if [p[0] for p in it[1]['sig']] != ['_']:
+                it[1]['sig'] = [[p[0], p[1], next((q[2] for q in gsig if q[0] == p[0]), p[2])] for p in it[1]['sig']]
+        funs.append({'name': 'g', 'kind': kind, 'sig': gsig, 'stack': gstack, 'body': body, 'clone_of': 'f'})
+        for j, (a, kw) in enumerate(calls):
+            if kind == 'gen': driver += [['gennew', 10 + j, 'g', a, kw], ['next', 10 + j]]
+            else: driver.append(['call', 'g', a, kw])
+    return {'funs': funs, 'driver': driver}
 
 
 N_QUICK, N_THOROUGH = 400, 3000
@@ -42,8 +56,7 @@ def monitor(sc, obs):
     acts = O.split(obs)
     if acts is None:
         return [('harness/observation error: ' + str(obs)[:200], None)]
-    f = sc['funs'][0]
-    pres = [it[1] for it in f['stack'] if it[0] == 'pre']
+    funs = {x['name']: x for x in sc['funs']}
     out, i = [], 0
     for a in sc['driver']:
         act = acts[i]; i += 1
@@ -52,8 +65,11 @@ def monitor(sc, obs):
         if a[0] == 'next':
             call = sc['driver'][sc['driver'].index(a) - 1]
             args, kws = call[3], call[4]
+            f = funs[call[2]]
         else:
             args, kws = a[2], a[3]
+            f = funs[a[1]]
+        pres = [it[1] for it in f['stack'] if it[0] == 'pre']
         sig_tag = None
         posonly = {p[0] for p in f['sig'] if p[1] == 'PosOnly'}
         if any(n in posonly for n, _ in kws) and any(p[1] == 'VarKw' for p in f['sig']):
@@ -75,7 +91,7 @@ def monitor(sc, obs):
             expect_exc = (configured(v, 'PreContractError') if r[0] == 'reject' else r[1])
             break
         if expect_body:
-            want = 'B f ' + pyeval.show_dict(b)
+            want = f'B {f["name"]} ' + pyeval.show_dict(b)
             if act.bodies() != [want]:
                 out.append((f'every precondition accepts, but body events are {act.bodies()} (expected [{want}]); outcome {act.outcome!r}', sig_tag))
             elif act.kind not in ('R', 'Y'):
